@@ -631,7 +631,15 @@ def _crop_corner_centered_mask(mask: torch.Tensor, bf_mask_padding_px: int):
     mask_c = torch.fft.fftshift(mask)
     ys, xs = torch.where(mask_c)
 
-    px = bf_mask_padding_px
-    y0, y1 = ys.min() - px, ys.max() + px + 1
-    x0, x1 = xs.min() - px, xs.max() + px + 1
+    def _symmetric_window(inds, n):
+        # the window must be centred on the origin (index n // 2 after fftshift), otherwise
+        # ifftshift does not put the origin back at [0, 0]; keep the whole axis if it does not fit
+        c = n // 2
+        r = int(max(c - inds.min(), inds.max() - c)) + bf_mask_padding_px
+        if c - r < 0 or c + r + 1 > n:
+            return 0, n
+        return c - r, c + r + 1
+
+    y0, y1 = _symmetric_window(ys, mask_c.shape[0])
+    x0, x1 = _symmetric_window(xs, mask_c.shape[1])
     return torch.fft.ifftshift(mask_c[y0:y1, x0:x1])
